@@ -7,7 +7,8 @@ From ScV Require Import Base.CInt Gen.HashResize.
 From ScV Require Import C09.HashModel C09.HashProofs C09.PoolModel C09.PoolProofs C09.ListModel C09.ListProofs.
 From ScV Require Import C09.HashArrayModel C09.HashArrayProofs C09.RecycleModel C09.RecycleProofs.
 From ScV Require Import C09.KeyValueModel C09.KeyValueProofs Gen.AvlBalance C09.AvlModel C09.AvlProofs.
-From ScV Require Import Gen.ContainersC09 Gen.AvlStepsC09 Gen.KeyValueC09 C09.GenTies.
+From ScV Require Import Gen.ContainersC09 Gen.AvlStepsC09 Gen.KeyValueC09 C09.GenTies C09.AvlSeqModel C09.AvlSeqProofs.
+From ScV Require Import C09.SharedModel C09.SharedProofs C09.HistoryProofs C09.RecyclePeak.
 Import ListNotations.
 Local Open Scope Z_scope.
 
@@ -242,6 +243,92 @@ Theorem C09_avl_rotation_children_exist :
   forall (key : Type) (l r : tree key), wfc key l -> wfc key r -> rebal_stuck key l r = false.
 Proof. exact rebal_never_stuck. Qed.
 Print Assumptions C09_avl_rotation_children_exist.
+
+(* ---------- several containers on one allocator; emptying and refilling ---------- *)
+(* Two sc_list objects and a third user (holding the items lk0) draw from ONE sc_mempool in any reachable state and
+   live in one memory.  For every legal history of operations on the two lists in any interleaving (links returned
+   by one list are recycled by the other through the shared freed stack): all results equal those of two INDEPENDENT
+   sequences; the links of both lists and the third user's items are pairwise distinct live items of the allocator;
+   without sc_list_unlink the allocator's elem_count is the sum of the two lengths and the third user's items. *)
+Theorem C09_lists_shared_pool_refine :
+  forall p lk0 ops, PoolInv p lk0 -> sq2_legal_run ([], []) ops ->
+    let '(st, outs) := sh_run_from (sh_new p) ops in
+    let '((sa, sb), souts) := sq2_run_from ([], []) ops in
+    outs = souts /\ sh_data st (sh_a st) = sa /\ sh_data st (sh_b st) = sb /\
+    h_count (sh_a st) = Z.of_nat (length sa) /\ h_count (sh_b st) = Z.of_nat (length sb) /\
+    exists ia ib lk, length ia = length sa /\ length ib = length sb /\ NoDup (ia ++ ib ++ lk) /\
+                     PoolInv (sh_pool st) (ia ++ ib ++ lk) /\
+                     ((forall w, ~ In (w, LUnlink) ops) ->
+                      lk = lk0 /\ mp_count (sh_pool st) = h_count (sh_a st) + h_count (sh_b st) + Z.of_nat (length lk0)).
+Proof. exact shared_lists_refine. Qed.
+Print Assumptions C09_lists_shared_pool_refine.
+
+(* an operation on a list writes only into its own links and into the link it has just obtained: every other live
+   item of the allocator (lk: the other containers' links) keeps its content *)
+Theorem C09_list_frame :
+  forall st l lk op, Rlk st l lk -> seq_legal l op ->
+    forall j, In j lk -> l_heap (fst (lstep st op)) j = l_heap st j.
+Proof. exact lstep_frame. Qed.
+Print Assumptions C09_list_frame.
+
+(* Hash table emptied and refilled: whatever the first history did (growth of the slot array, collisions, overrides),
+   once it has removed every element again (remove, truncate or unlink; the slot array may still be large and the
+   resize counters are not reset) the table is indistinguishable from a new one: elem_count 0, nothing to iterate,
+   every further history gives the outputs of the set started from empty. *)
+Theorem C09_hash_drain_refill :
+  forall (key : Type) (hf : key -> Z) (eqb : key -> key -> bool),
+    (forall a, eqb a a = true) -> (forall a b, eqb a b = true -> eqb b a = true) ->
+    (forall a b c, eqb a b = true -> eqb b c = true -> eqb a c = true) ->
+    (forall a b, eqb a b = true -> hf a = hf b) ->
+  forall (owned : bool) (links : Z) (ops1 ops2 : list (hop key)),
+    Forall (legal_op key eqb) ops1 -> Forall (legal_op key eqb) ops2 -> fst (set_run key eqb ops1) = [] ->
+    let h1 := fst (run key hf eqb owned links ops1) in
+    hcount key h1 = 0 /\ elements key h1 = [] /\
+    Forall2 (out_equiv key) (snd (run_from key hf eqb h1 ops2)) (snd (set_run key eqb ops2)) /\
+    hcount key (fst (run_from key hf eqb h1 ops2)) = Z.of_nat (length (fst (set_run key eqb ops2))).
+Proof. exact hash_drain_refill. Qed.
+Print Assumptions C09_hash_drain_refill.
+
+(* Recycle array: a slot is never allocated while a freed one exists.  After every legal history the number of slots
+   of the array `a` is the PEAK number of simultaneously live items since the last reset (peak_run: the largest
+   elem_count along the run); emptying the array and refilling it up to the old peak allocates nothing. *)
+Theorem C09_recycle_slots_are_peak :
+  forall ops, rlegal_run ra_init ([], 0) ops ->
+    Z.of_nat (length (ra_a (fst (rrun_from ra_init ops)))) = peak_run ra_init 0 ops.
+Proof. exact recycle_slots_are_peak. Qed.
+Print Assumptions C09_recycle_slots_are_peak.
+
+(* the freed positions form a stack: a position that was just removed is the next one handed out *)
+Theorem C09_recycle_reuse_lifo :
+  forall r p junk, snd (ra_insert (fst (ra_remove r p)) junk) = p.
+Proof. exact recycle_reuse_lifo. Qed.
+Print Assumptions C09_recycle_reuse_lifo.
+
+(* ---------- AVL tree with positions chosen by the caller: a sequence ---------- *)
+(* avl_insert_before / avl_insert_after called directly with the node avl_at (u) or with NULL (append / prepend /
+   avl_insert_top on the empty tree), avl_delete_node (avl_at (u)), avl_at, avl_index of a node, count, foreach,
+   forward / backward list walk, avl_free_nodes.  No compare function is involved.  For every history: the in-order
+   sequence of the tree and the prev/next list equal the Coq list obtained by inserting / deleting at the same
+   indices, every stored count is the size of its subtree, avl_count is the length, and every output (avl_at u =
+   u-th item, avl_index (avl_at u) = u, the deleted item, traversals, head and tail) equals the list's. *)
+Theorem C09_avl_seq_refines :
+  forall (key : Type) (ops : list (qop key)),
+    let '(st, outs) := qrun_from key (avl_new key) ops in
+    let '(s, souts) := sqrun_from key [] ops in
+    inorder key (a_top key st) = s /\ a_thread key st = s /\ wfc key (a_top key st) /\
+    cnt key (a_top key st) = Z.of_nat (length s) /\ outs = souts.
+Proof. exact avl_seq_refines. Qed.
+Print Assumptions C09_avl_seq_refines.
+
+(* a positional insertion never moves the other items and puts the new item exactly at the chosen place *)
+Theorem C09_avl_seq_insert_keeps_order :
+  forall (key : Type) (t : tree key) (u : Z) (x : key), wfc key t -> 0 <= u < cnt key t ->
+    sq_del key (inorder key (ins_before key t u x)) (Z.to_nat u) = inorder key t /\
+    sq_del key (inorder key (ins_after key t u x)) (S (Z.to_nat u)) = inorder key t /\
+    nth_error (inorder key (ins_before key t u x)) (Z.to_nat u) = Some x /\
+    nth_error (inorder key (ins_after key t u x)) (S (Z.to_nat u)) = Some x.
+Proof. exact avl_seq_insert_keeps_order. Qed.
+Print Assumptions C09_avl_seq_insert_keeps_order.
 
 (* ---------- tie T1: the models compute what the definitions GENERATED from the current source say ---------- *)
 (* Gen/ContainersC09.v, Gen/AvlStepsC09.v, Gen/KeyValueC09.v are regenerated from /repo on every run (tools/c2g/groups_C09.py).
@@ -802,3 +889,13 @@ Proof. cbn. repeat split; try lia; intros; try congruence. Qed.
 Example C09_ex_avl_cmp : (forall a b, Z.sgn (a - b) = - Z.sgn (b - a)) /\ (forall a b c : Z, a - b < 0 -> b - c < 0 -> a - c < 0) /\
   (forall a b c : Z, a - b = 0 -> Z.sgn (a - c) = Z.sgn (b - c)).
 Proof. cbn. repeat split; try lia; try (intros; congruence). Qed.
+Example C09_ex_avl_seq : snd (qrun_from Z (avl_new Z) [QInsBefore Z 0 5; QInsAfter Z 0 7; QInsBefore Z 1 6; QInsBefore Z 9 8; QDeleteAt 0; QForeach; QIndexAt 2]) =
+  [QoCnt Z 1; QoCnt Z 2; QoCnt Z 3; QoCnt Z 4; QoItem Z (Some 5); QoList Z [6; 7; 8]; QoIdx Z (Some 2)].
+Proof. vm_compute. reflexivity. Qed.
+Example C09_ex_shared_legal : sq2_legal_run ([], []) [(false, LAppend 1); (true, LPrepend 2); (false, LPop); (true, LAppend 3); (true, LRemove 0);
+                                                    (false, LAppend 4); (true, LReset); (false, LDump)].
+Proof. cbn. repeat split; try discriminate; lia. Qed.
+Example C09_ex_hash_drain : fst (set_run (Z * Z) (fun a b => fst a =? fst b) [HInsert _ (1, 0); HInsert _ (2, 0); HRemove _ (1, 5); HRemove _ (2, 5)]) = [].
+Proof. vm_compute. reflexivity. Qed.
+Example C09_ex_recycle_peak : peak_run ra_init 0 [RInsert 9 1; RInsert 9 2; RInsert 9 3; RRemove 1; RRemove 0; RRemove 2; RInsert 9 4; RInsert 9 5] = 3.
+Proof. vm_compute. reflexivity. Qed.
